@@ -128,6 +128,12 @@ def one_update(world, prefix, op, counters, digests, violations, known, rng, sam
         ls, sh2 = build_state(world, prefix)
         m = ls.runner.mgr
         C.ARM[kind] = k
+        # the class of the injected exception rotates over common built-in classes
+        exc_cls = C.INJECTED_CLASSES[(k + len(prefix) + (0 if kind == "write" else 3)) % len(C.INJECTED_CLASSES)] if k > 0 or kind == "call" \
+            else C.InjectedFault
+        C.ARM["exc"] = exc_cls
+        counters.setdefault("fault_classes", {})
+        counters["fault_classes"][exc_cls.__name__] = counters["fault_classes"].get(exc_cls.__name__, 0) + 1
         del C.EVENTS[:]
         raised = None
         try:
@@ -147,7 +153,7 @@ def one_update(world, prefix, op, counters, digests, violations, known, rng, sam
         if raised is None:
             violations.append(dict(wit, what="C18 fault at %s #%d was swallowed: the assignment returned normally" % (kind, k)))
             return
-        if not isinstance(raised, C.InjectedFault):
+        if not C.is_injected(raised):
             counters["exceptions_translated"] = counters.get("exceptions_translated", 0) + 1
         before = ev[:fault_at[0]]
         after = ev[fault_at[0] + 1:]
